@@ -5,12 +5,12 @@ from . import core, tv
 
 
 def run_property(pid, cases, tier, chunk=30, title='', bounds=None, cfg=None, extra_evidence=None, level='translation_validation',
-                 assumptions=None, post=None, z3_timeout_ms=30000):
+                 assumptions=None, post=None, z3_timeout_ms=30000, minify=False):
     t0 = time.time()
     work = os.path.join(core.scratch(), pid)
     os.makedirs(work, exist_ok=True)
     known = core.load_known(pid)
-    rep = tv.check_cases(cases, work, chunk=chunk, cfg=cfg, known=known, z3_timeout_ms=z3_timeout_ms)
+    rep = tv.check_cases(cases, work, chunk=chunk, cfg=cfg, known=known, z3_timeout_ms=z3_timeout_ms, minify=minify)
     violations = 0
     lines = []
     noev = bool(os.environ.get('VERIF_NO_EVIDENCE'))     # used when trying seeded changes: leave the committed evidence alone
@@ -21,12 +21,29 @@ def run_property(pid, cases, tier, chunk=30, title='', bounds=None, cfg=None, ex
         case = v['case']
         outdir = os.path.join(replay_root, v['tag'])
         try:
-            info = tv.replay(case, v['model'], outdir)
+            info = tv.replay(case, v['model'], outdir, minify=minify)
             go_lines, go_end = tv.normalise_output(info['go']['rc'], info['go']['stdout'], info['go']['stderr'])
             js_lines, js_end = tv.normalise_output(info['js']['rc'], info['js']['stdout'], info['js']['stderr'])
             differs = (go_lines != js_lines) or (go_end != js_end)
             uses_word = any(t in ('int', 'uint', 'uintptr') for t in case.inputs.values()) or '_int_' in v['tag'] or '_uint_' in v['tag'] or '_uintptr_' in v['tag']
             rec = {'tag': v['tag'], 'why': v['why'], 'model': v['model'], 'solver_values': v.get('values'), 'go': [go_lines, go_end], 'js': [js_lines, js_end], 'replay': outdir}
+            if not differs and uses_word and v.get('values'):
+                # word-sized operand: native Go computes in 64 bits, so the native transcript cannot show the difference.
+                # Confirm against the specification value from the solver model instead: the real JavaScript output must
+                # equal the engine's value and differ from the reference value.
+                import re as _re
+                nums = [int(x.replace('(- ', '-').replace(')', '')) for x in _re.findall(r'\(- \d+\)|(?<![\w.])\d+(?![\w.])', v['values'].split('\n')[-1][-60:])]
+                jsnums = _re.findall(r'-?\d+', js_lines[0]) if js_lines else []
+                try:
+                    allv = [int(t.replace('(- ', '-').rstrip(')')) for t in _re.findall(r'(\(- \d+\)|\d+)\)\s*\)?\s*$', l)] if False else None
+                except Exception:
+                    allv = None
+                vals = _re.findall(r'\) (\(- \d+\)|-?\d+)\)', v['values'])
+                vals = [int(t.replace('(- ', '-').rstrip(')')) for t in vals]
+                if len(vals) == 2 and jsnums and int(jsnums[-1]) == vals[0] and vals[0] != vals[1]:
+                    rec['note'] = 'word-sized type: real JavaScript output %s equals the engine value and differs from the 32-bit specification value %d' % (jsnums[-1], vals[1])
+                    confirmed.append(rec)
+                    continue
             if differs and not uses_word:
                 confirmed.append(rec)
             elif differs and uses_word:
